@@ -386,14 +386,22 @@ func (s *Stack) Barrier() error {
 		}
 		time.Sleep(20 * time.Microsecond)
 	}
-	s.hbSeq++
-	seq := 0x800000 | s.hbSeq&0x7fffff
-	hb := message.NewHeartbeatRequest(seq, ie.NewRecoveryTimeStamp(time.Unix(0, 0)), nil)
-	b := make([]byte, hb.MarshalLen())
-	_ = hb.MarshalTo(b)
-	if err := s.Probe.SendTo(b, s.UPF); err != nil {
+	// the probe heartbeat; sent again every 500 ms, because a burst the case itself has just sent can overflow the UPF's
+	// socket buffer and take the probe with it (datagrams queued before it are still served first)
+	sent := map[uint32]bool{}
+	probe := func() error {
+		s.hbSeq++
+		seq := 0x800000 | s.hbSeq&0x7fffff
+		sent[seq] = true
+		hb := message.NewHeartbeatRequest(seq, ie.NewRecoveryTimeStamp(time.Unix(0, 0)), nil)
+		b := make([]byte, hb.MarshalLen())
+		_ = hb.MarshalTo(b)
+		return s.Probe.SendTo(b, s.UPF)
+	}
+	if err := probe(); err != nil {
 		return err
 	}
+	last := time.Now()
 	for {
 		left := BarrierTimeout - time.Since(start)
 		step := 50 * time.Millisecond
@@ -413,14 +421,28 @@ func (s *Stack) Barrier() error {
 				s.Dead = c
 				return &ErrDead{c}
 			}
+			if time.Since(last) > 500*time.Millisecond {
+				last = time.Now()
+				if err := probe(); err != nil {
+					return err
+				}
+			}
 			continue
 		}
 		m, perr := message.Parse(r)
 		if perr != nil {
 			continue
 		}
-		if m.MessageType() == message.MsgTypeHeartbeatResponse && m.Sequence() == seq {
-			// the loop may have queued a report/timeout meanwhile (it cannot: single consumer, we are the only producer)
+		if m.MessageType() == message.MsgTypeHeartbeatResponse && sent[m.Sequence()] {
+			// later probes of this barrier may still be answered: leave nothing behind for the next one
+			if len(sent) > 1 {
+				time.Sleep(2 * time.Millisecond)
+				for {
+					if _, err := s.Probe.RecvTimeout(time.Millisecond); err != nil {
+						break
+					}
+				}
+			}
 			return nil
 		}
 	}
